@@ -86,9 +86,9 @@ P = {
    "Timed histories for the real LinkCcController::tick_all over real connections (RTT samples, cumulative byte / NAK counters, bitrate estimate following per-run regimes with zero / steady / 100x burst rates, ticks 1 ms .. 10 s apart, links leaving and re-entering the tick set, counter resets); after every tick, against the previous snapshot and the tick's inputs: bounds, floor until an RTT sample exists, only-these-transitions-lower-the-cap, growth <= 6 % and <= 2 x measured after seeding, loss-latch temporal rule on the reported loss average. Invariants sampled over seeded histories.",
    "Trusted: measured quantities are written directly; the loss average is the controller's own reported value (range-checked only); a drain entry clamped by the floor is accepted.",
    "§P-C16"),
- "C17": (True, "K", "exploration",
+ "C17": (True, "KW", "exploration",
    "Tick-by-tick histories for the real WeakLinkFilter::classify (bitrates idling, starving and crossing the bypass floor, one-tick RTT blips and sustained rises, queue building through real RTT-tracker samples, links joining / leaving / dropped from the tick set); a temporal monitor checks the five clauses of the statement. Temporal contract sampled over seeded histories.",
-   "Trusted: the bitrate estimate is written directly; the delay tier is the one the classifier reports; permille rounding in the statement's favour.",
+   "Trusted: the bitrate estimate is written directly; the delay tier is the one the classifier reports; permille rounding in the statement's favour. One run in eight hundred executes the real run_sender_with_config (engine W): a fast and a slow uplink under a steady stream above the floor, reloads that change nothing arriving meanwhile; the verdicts the loop publishes every tick (stats topic of the real hub) are judged for the probation rule and 'never weak while disconnected' - the classifier's history lives in the event loop, which engine K does not run.",
    "§P-C17"),
  "C18": (True, "TSX", "exploration",
    "RESTRICTED CLAIM. Request-line histories from 1..4 simulated control clients (stdin-style through dispatch, socket-style through dispatch_async with a real SubscriptionContext and hub), interleaved line by line by the seeded executor, with malformed-line faults (truncation at a random offset, arbitrary bytes, non-object JSON, blank lines, wrong versions, ids of every JSON type, ill-typed / missing / extreme parameters, deep nesting); per line: no panic, response well-formedness and error class against a reference reading of the statement, echo of the applied value; after every line the configuration snapshot and a get_status answer must equal a reference model (timeout clamped to 1000..60000); every non-subscription line is also sent to the other entry point on a twin configuration and must get the same answer.",
